@@ -323,6 +323,8 @@ def _parse_arithmetic_chain(tokens: pp.ParseResults) -> float:
         if operator == "*":
             result *= operand
         elif operator == "/":
+            if operand == 0:
+                raise pp.ParseFatalException("division by zero in a constant expression")
             result /= operand
         elif operator == "+":
             result += operand
